@@ -37,7 +37,8 @@ MOLS = {'BensonGA': ['CC', 'CCCCCC', 'CCO', 'C=CC', 'c1ccccc1'],
         'SalciccioliGA2012': ['C([Pt])C', 'CC([Pt])O'],
         'X1': ['C([Ru])C', 'CC', 'C([Ru])([Ru])C']}
 GROUPS = {'BensonGA': ['C(C)(H)3', 'C(C)2(H)2'], 'GRWSurface2018': ['C(C)(H)3'],
-          'SalciccioliGA2012': ['C(C)(H)3'], 'X1': ['C(C)(H)3'], 'X2': ['C(C)(H)3']}
+          'SalciccioliGA2012': ['C(C)(H)3'], 'X1': ['C(C)(H)3', 'Zz(Q)2'], 'X2': ['C(C)(H)3', 'Zz(Q)2'],
+          'X3': ['Zz(Q)2', 'Yy(Q)']}
 GET = {'Cp': 'get_CpoR', 'H': 'get_HoRT', 'S': 'get_SoR', 'G': 'get_GoRT'}
 
 PURE = r'''
@@ -64,8 +65,13 @@ with contextlib.redirect_stdout(buf):
     from pgradd.GroupAdd.Library import GroupLibrary
     def load(srcs):
         lib = GroupLibrary.Load(paths.get(srcs[0], srcs[0]))
+        ow = False
         for s in srcs[1:]:
-            lib.Update(GroupLibrary.Load(paths.get(s, s)))
+            if s == '!':
+                ow = True
+                continue
+            lib.Update(GroupLibrary.Load(paths.get(s, s)), overwrite=ow)
+            ow = False
         return lib
     kind = key[0]
     GET = {'Cp': 'get_CpoR', 'H': 'get_HoRT', 'S': 'get_SoR', 'G': 'get_GoRT'}
@@ -142,7 +148,7 @@ class World(object):
             else:
                 out = res(kind, lib)
         elif op == 'update':
-            kind, v, _ = call(self.libs[ev['h']].Update, self.libs[ev['h2']])
+            kind, v, _ = call(self.libs[ev['h']].Update, self.libs[ev['h2']], ev['ow'])
             out = ('value:' + repr(digest(self.libs[ev['h']]))) if kind == 'value' else res(kind, v)
         elif op == 'decompose':
             kind, d, _ = call(self.libs[ev['h']].GetDescriptors, ev['m'])
@@ -164,10 +170,11 @@ class World(object):
                 kind, v, _ = call(getattr(e, GET[ev['p']]), T)
             out = res(kind, v)
         else:
-            c = self.libs[ev['h']][ev['g']]['thermochem']
-            kind, v, _ = call(getattr(c, GET[ev['p']]), TEMPS[ev['t']])
+            kind, v, _ = call(lambda: getattr(self.libs[ev['h']][ev['g']]['thermochem'], GET[ev['p']])(TEMPS[ev['t']]))
             out = res(kind, v)
-        changed = [h for h in before if readonly and digest(self.libs[h]) != before[h]]
+        # computing results alters no library; a merge alters its target only
+        changed = [h for h in before if (readonly or (op == 'update' and h != ev['h']))
+                   and digest(self.libs[h]) != before[h]]
         return out, changed
 
 
@@ -187,13 +194,16 @@ def make_history(rng_, n, libs):
             L = rng_.choice(libs)
             evs.append({'op': 'load', 'h': h, 'L': L})
             srcs[h] = [L]
-        elif r < .17:
+        elif r < .22:
+            # X2 and X3 carry different data for one group: whichever comes second must overwrite
             cands = [(a, b) for a in loaded for b in loaded
-                     if a != b and srcs[a] == ['X1'] and srcs[b] == ['X2']]
+                     if a != b and srcs[a][0] in ('X1', 'X2') and srcs[b] in (['X2'], ['X3'])
+                     and srcs[b][0] not in srcs[a]]
             if cands:
                 a, b = rng_.choice(cands)
-                evs.append({'op': 'update', 'h': a, 'h2': b})
-                srcs[a] = srcs[a] + srcs[b]
+                ow = bool(set(srcs[a]) & {'X2', 'X3'}) or rng_.random() < .3
+                evs.append({'op': 'update', 'h': a, 'h2': b, 'ow': ow})
+                srcs[a] = srcs[a] + (['!'] if ow else []) + srcs[b]
         elif r < .45:
             h = rng_.choice([x for x in loaded if srcs[x][0] in MOLS] or [None])
             if h is None:
@@ -215,7 +225,7 @@ def make_history(rng_, n, libs):
                             'sel': pp in ('S', 'G') and rng_.random() < .5})
         else:
             h = rng_.choice(loaded)
-            g = GROUPS[srcs[h][0]][0]
+            g = rng_.choice(GROUPS[srcs[h][0]])
             evs.append({'op': 'evalgroup', 'h': h, 'g': g, 'p': rng_.choice(['H', 'S', 'Cp']),
                         't': rng_.choice([1, 2, 3])})
     return evs
@@ -240,6 +250,39 @@ def systematic(libs):
                        {'op': 'load', 'h': 2, 'L': L}, {'op': 'estimate', 'h': 2, 'd': 2},
                        {'op': 'eval', 'e': 3, 'p': 'H', 't': 3, 'sel': False},
                        {'op': 'eval', 'e': 3, 'p': 'S', 't': 3, 'sel': sel}])
+    # one estimate asked the same thing with and without the elemental reference, in both orders
+    for L in libs:
+        if L not in MOLS:
+            continue
+        hs.append([{'op': 'load', 'h': 1, 'L': L}, {'op': 'decompose', 'h': 1, 'm': MOLS[L][1]},
+                   {'op': 'estimate', 'h': 1, 'd': 1},
+                   {'op': 'eval', 'e': 1, 'p': 'S', 't': 1, 'sel': False},
+                   {'op': 'eval', 'e': 1, 'p': 'S', 't': 1, 'sel': True},
+                   {'op': 'eval', 'e': 1, 'p': 'G', 't': 2, 'sel': True},
+                   {'op': 'eval', 'e': 1, 'p': 'G', 't': 2, 'sel': False},
+                   {'op': 'eval', 'e': 1, 'p': 'H', 't': 2, 'sel': False},
+                   {'op': 'eval', 'e': 1, 'p': 'Cp', 't': 2, 'sel': False},
+                   {'op': 'eval', 'e': 1, 'p': 'S', 't': 2, 'sel': False},
+                   {'op': 'eval', 'e': 1, 'p': 'S', 't': 1, 'sel': False}])
+    # merges: the source of a merge is only read, whatever is merged into the target afterwards
+    if 'X3' in libs:
+        for ow2 in (False, True):
+            hs.append([{'op': 'load', 'h': 1, 'L': 'X1'}, {'op': 'load', 'h': 2, 'L': 'X2'},
+                       {'op': 'load', 'h': 3, 'L': 'X3'},
+                       {'op': 'update', 'h': 1, 'h2': 2, 'ow': ow2},
+                       {'op': 'evalgroup', 'h': 1, 'g': 'Zz(Q)2', 'p': 'H', 't': 1},
+                       {'op': 'update', 'h': 1, 'h2': 3, 'ow': True},
+                       {'op': 'evalgroup', 'h': 1, 'g': 'Zz(Q)2', 'p': 'H', 't': 1},
+                       {'op': 'evalgroup', 'h': 2, 'g': 'Zz(Q)2', 'p': 'H', 't': 1},
+                       {'op': 'evalgroup', 'h': 3, 'g': 'Zz(Q)2', 'p': 'Cp', 't': 2},
+                       {'op': 'decompose', 'h': 1, 'm': 'CC'}, {'op': 'estimate', 'h': 1, 'd': 1},
+                       {'op': 'eval', 'e': 1, 'p': 'H', 't': 1, 'sel': False}])
+        hs.append([{'op': 'load', 'h': 2, 'L': 'X2'}, {'op': 'load', 'h': 3, 'L': 'X3'},
+                   {'op': 'update', 'h': 2, 'h2': 3, 'ow': True},
+                   {'op': 'evalgroup', 'h': 2, 'g': 'Zz(Q)2', 'p': 'H', 't': 1},
+                   {'op': 'evalgroup', 'h': 3, 'g': 'Zz(Q)2', 'p': 'H', 't': 1},
+                   {'op': 'load', 'h': 1, 'L': 'X3'},
+                   {'op': 'evalgroup', 'h': 1, 'g': 'Yy(Q)', 'p': 'S', 't': 1}])
     return hs
 
 
@@ -272,8 +315,16 @@ def run(ctx):
         f.write('groups:\n  "Zz(Q)2":\n    thermochem:\n      T_ref: 298.15 K\n      ND_H_ref: 1.5\n'
                 '      ND_S_ref: 0.0\n  "C(C)(H)3":\n    thermochem:\n      T_ref: 298.15 K\n'
                 '      range: [200 K, 2000 K]\n')
-    paths = {'X1': os.path.join(x1, 'library.yaml'), 'X2': os.path.join(x2, 'library.yaml')}
-    libs = ['BensonGA', 'GRWSurface2018', 'X1', 'X2'] + (['SalciccioliGA2012'] if thorough else [])
+    x3 = os.path.join(work, 'X3')
+    os.makedirs(x3)
+    shutil.copy(os.path.join(x1, 'scheme.yaml'), os.path.join(x3, 'scheme.yaml'))
+    with open(os.path.join(x3, 'library.yaml'), 'w') as f:
+        f.write('groups:\n  "Zz(Q)2":\n    thermochem:\n      T_ref: 298.15 K\n      ND_H_ref: 2.5\n'
+                '      ND_Cp_data: [[300 K, 1.0], [500 K, 2.0]]\n      range: [200 K, 2000 K]\n'
+                '  "Yy(Q)":\n    thermochem:\n      T_ref: 298.15 K\n      ND_S_ref: 4.0\n')
+    paths = {'X1': os.path.join(x1, 'library.yaml'), 'X2': os.path.join(x2, 'library.yaml'),
+             'X3': os.path.join(x3, 'library.yaml')}
+    libs = ['BensonGA', 'GRWSurface2018', 'X1', 'X2', 'X3'] + (['SalciccioliGA2012'] if thorough else [])
     rng_ = random.Random(ctx.seed)
     histories = []
     # the TLC counterexample, instantiated on every library (abstract m1, m2 -> real molecules)
@@ -386,7 +437,7 @@ def _show(e):
     if e['op'] == 'load':
         return 'h%d=Load(%s)' % (e['h'], e['L'])
     if e['op'] == 'update':
-        return 'h%d.Update(h%d)' % (e['h'], e['h2'])
+        return 'h%d.Update(h%d%s)' % (e['h'], e['h2'], ', overwrite=True' if e['ow'] else '')
     if e['op'] == 'decompose':
         return 'h%d.GetDescriptors(%s)' % (e['h'], e['m'])
     if e['op'] == 'estimate':
